@@ -92,6 +92,27 @@ Qed.
 Lemma kept_incl : forall g e x, In x (kept g e) -> In x (g_edges g).
 Proof. unfold kept; intros. apply filter_In in H; tauto. Qed.
 
+Lemma NoDup_app_intro : forall {A} (l1 l2 : list A),
+  NoDup l1 -> NoDup l2 -> (forall x, In x l1 -> ~ In x l2) -> NoDup (l1 ++ l2).
+Proof.
+  induction l1; simpl; intros; auto. inversion H; subst. constructor.
+  - rewrite in_app_iff. intros [?|?]; auto. apply (H1 a); auto.
+  - apply IHl1; auto.
+Qed.
+
+Lemma new_nodes_nodup : forall L g nx e r, repl_guard L g nx e r ->
+  NoDup (map n_id (g_nodes g ++ copies nx (nonext r))).
+Proof.
+  intros L g nx e r G. destruct (rg_below _ _ _ _ _ G) as [B1 _].
+  rewrite map_app. apply NoDup_app_intro.
+  - apply (wf_nodes g (rg_wf _ _ _ _ _ G)).
+  - apply copies_ids_nodup.
+  - intros i Hi Hc. apply in_map_iff in Hi. destruct Hi as [n [<- Hn]].
+    apply in_map_iff in Hc. destruct Hc as [c [Hc Hcin]].
+    apply copies_In in Hcin. destruct Hcin as [k [v [-> [? ?]]]]. simpl in Hc.
+    specialize (B1 n Hn). rewrite <- Hc in B1. simpl in B1. lia.
+Qed.
+
 Lemma replace_explicit : forall L g nx e r, repl_guard L g nx e r ->
   replace_edge_model g nx e r = (r_graph g nx e r, r_next nx r, Ok (r_nm nx e r, r_em nx e r)).
 Proof.
@@ -129,16 +150,10 @@ Proof.
       * apply copies_In in Hn. destruct Hn as [k [v [-> [? ?]]]]. simpl. lia.
     + intros x Hx. apply filter_In in Hx. eapply id_lt_mono; [|apply B2; tauto]. lia.
   - apply wf_graph_nodup_edges. apply (rg_wfr _ _ _ _ _ G).
+  - cbn [add_nodes remove_edge_id g_nodes]. apply (new_nodes_nodup L g nx e r G).
 Qed.
 
 (** * Well-formedness is preserved *)
-Lemma NoDup_app_intro : forall {A} (l1 l2 : list A),
-  NoDup l1 -> NoDup l2 -> (forall x, In x l1 -> ~ In x l2) -> NoDup (l1 ++ l2).
-Proof.
-  induction l1; simpl; intros; auto. inversion H; subst. constructor.
-  - rewrite in_app_iff. intros [?|?]; auto. apply (H1 a); auto.
-  - apply IHl1; auto.
-Qed.
 
 Lemma NoDup_map_filter : forall {A B} (f : A -> B) p l, NoDup (map f l) -> NoDup (map f (filter p l)).
 Proof.
